@@ -14,7 +14,7 @@ def run(ck):
     if quick:
         hs.append(H('c06_table_n1', cap=900, meaning='n<=1, same assertions'))
     else:
-        hs += [H('c06_table_n3', cap=7200, meaning='n<=3'), H('c06_table_n2_leap1', cap=7200, required=False, meaning='n<=2 with one leap-second record')]
+        hs += [H('c06_table_n3', cap=7200, meaning='n<=3'), H('c06_table_leap1_n2', cap=7200, required=False, meaning='n<=2 with one leap-second record')]
     kprop.run_harnesses(ck, hs, on_fail=lambda B, h: kprop.replay_search_failure(ck, B, h, int(re.search(r'_n(\d)', h.name).group(1))))
     ck.functions += ['datetime::find::find_date_time', 'DateTime::find_n', 'FoundDateTimeListRefMut::{earliest,latest,data}', 'TimeZoneRef::find_local_time_type', 'TimeZoneRef::unix_leap_time_to_unix_time', 'DateTime::from_timespec_and_local']
     ck.explanation = 'Gap detection (two comparisons per transition in leap-count space) and push order are decided for every zone up to the bound and every civil time.'
